@@ -27,6 +27,14 @@ type c14Extra struct {
 	OGSite      string `json:"og_site"`
 	OGImages    int    `json:"og_images"`
 	OGMissing   string `json:"og_missing"` // which required property is absent ("" if none)
+	// type-dependent properties of the OpenGraph block (they count for type article / profile only)
+	OGSection   string   `json:"og_section"`
+	OGPublished string   `json:"og_published"`
+	OGModified  string   `json:"og_modified"`
+	OGExpires   string   `json:"og_expires"`
+	OGAuthors   []string `json:"og_authors"`
+	OGFirst     string   `json:"og_first"`
+	OGLast      string   `json:"og_last"`
 	// schema.org
 	SchemaArticles  int    `json:"schema_articles"`
 	SchemaTitle     string `json:"schema_title"`      // headline/name of the first article that has one
@@ -121,33 +129,61 @@ func genC14(t *rapid.T) *Case {
 		}
 		if strings.EqualFold(typ, "profile") && g.chance(80, "ogprofile") {
 			if g.chance(80, "ogfirst") {
-				og = append(og, meta("profile:first_name", g.val("ogf", 1)))
+				ex.OGFirst = g.val("ogf", 1)
+				og = append(og, meta("profile:first_name", ex.OGFirst))
 			}
 			if g.chance(80, "oglast") {
-				og = append(og, meta("profile:last_name", g.val("ogl", 1)))
+				ex.OGLast = g.val("ogl", 1)
+				og = append(og, meta("profile:last_name", ex.OGLast))
 			}
 		}
 		if g.chance(70, "ogarticle") { // rendered for every type: they only count when the type is article
 			if g.chance(60, "ogsec") {
-				og = append(og, meta("article:section", g.val("ogsec", 2)))
+				ex.OGSection = g.val("ogsec", 2)
+				og = append(og, meta("article:section", ex.OGSection))
 			}
 			if g.chance(60, "ogpub") {
-				og = append(og, meta("article:published_time", "2021-02-03T04:05:06Z"))
+				ex.OGPublished = "2021-02-03T04:05:06Z"
+				og = append(og, meta("article:published_time", ex.OGPublished))
 			}
 			if g.chance(40, "ogmod") {
-				og = append(og, meta("article:modified_time", "2021-03-04T00:00:00Z"))
+				ex.OGModified = "2021-03-04T00:00:00Z"
+				og = append(og, meta("article:modified_time", ex.OGModified))
 			}
 			if g.chance(20, "ogexp") {
-				og = append(og, meta("article:expiration_time", "2031-01-01T00:00:00Z"))
+				ex.OGExpires = "2031-01-01T00:00:00Z"
+				og = append(og, meta("article:expiration_time", ex.OGExpires))
 			}
 			na := g.intn(0, 2, "ogauthors")
 			for i := 0; i < na; i++ {
-				og = append(og, meta("article:author", "http://example.com/authors/"+g.tokp("oga")))
+				a := "http://example.com/authors/" + g.tokp("oga")
+				ex.OGAuthors = append(ex.OGAuthors, a)
+				og = append(og, meta("article:author", a))
 			}
 		}
 		ex.OGQualified = missing == ""
-		// og:type first (the parser is order-sensitive for type-dependent properties); the rest keeps
-		// its relative order but is interleaved with the other sources
+		// properties whose names merely start like a required one are other properties
+		if g.chance(25, "ognear") {
+			for _, near := range []string{":title:alt", ":title_color", ":url_mobile", ":urls", ":typeface", ":description_short", ":site_name:x"} {
+				if g.chance(40, "ognearpick") {
+					nm := meta(pfx+near, "near "+g.val("ogn", 2))
+					pos := g.intn(0, len(og), "ognearpos")
+					og = append(og[:pos], append([]piece{nm}, og[pos:]...)...)
+				}
+			}
+		}
+		// og:type stands anywhere among the other properties (the documents are "in any order"); the
+		// rest keeps its relative order but is interleaved with the other sources
+		if missing != "type" && len(og) > 1 && g.chance(60, "ogtypepos") {
+			for i, pc := range og {
+				if strings.Contains(pc.html, `property="`+pfx+`:type"`) {
+					og = append(og[:i], og[i+1:]...)
+					pos := g.intn(0, len(og), "ogtypeat")
+					og = append(og[:pos], append([]piece{pc}, og[pos:]...)...)
+					break
+				}
+			}
+		}
 		head = append(head, og...)
 	}
 
@@ -471,6 +507,30 @@ func checkC14(c *Case) (*Violation, caseInfo) {
 			case og.Title != ex.OGTitle, og.URL != ex.OGURL, og.Description != ex.OGDesc, og.Publisher != ex.OGSite, og.Type != wantType, len(og.Images) != ex.OGImages:
 				return violationf("C14 opengraph-values", "a complete OpenGraph block (title %q, type %q, url %q, description %q, site_name %q, %d images) yields %s",
 					ex.OGTitle, ex.OGType, ex.OGURL, ex.OGDesc, ex.OGSite, ex.OGImages, miJSON(og)), info
+			}
+			// type-dependent properties, wherever og:type stands among them
+			wantArticle := data.MarkupArticle{}
+			if strings.EqualFold(ex.OGType, "article") {
+				wantArticle = data.MarkupArticle{PublishedTime: ex.OGPublished, ModifiedTime: ex.OGModified, ExpirationTime: ex.OGExpires, Section: ex.OGSection, Authors: ex.OGAuthors}
+			}
+			ja, _ := json.Marshal(wantArticle)
+			jb, _ := json.Marshal(og.Article)
+			if strings.ReplaceAll(string(ja), `"Authors":null`, `"Authors":[]`) != strings.ReplaceAll(string(jb), `"Authors":null`, `"Authors":[]`) {
+				return violationf("C14 opengraph-article-record type="+strings.ToLower(ex.OGType), "a complete OpenGraph block of type %q with article properties %s yields the article record %s", ex.OGType, ja, jb), info
+			}
+			wantAuthor, pinAuthor := "", true
+			if strings.EqualFold(ex.OGType, "profile") {
+				switch {
+				case ex.OGFirst != "" && ex.OGLast != "":
+					wantAuthor = ex.OGFirst + " " + ex.OGLast
+				case ex.OGFirst != "":
+					wantAuthor = ex.OGFirst
+				case ex.OGLast != "":
+					pinAuthor = false // a family name alone: not pinned
+				}
+			}
+			if pinAuthor && og.Author != wantAuthor {
+				return violationf("C14 opengraph-profile-author", "a complete OpenGraph block of type %q with first name %q and last name %q yields Author=%q", ex.OGType, ex.OGFirst, ex.OGLast, og.Author), info
 			}
 		} else {
 			info.Classes = append(info.Classes, "og-disqualified:missing-"+ex.OGMissing)
